@@ -60,8 +60,9 @@ def make_cases(tier, seed, n_random=None, maxlen=None):
             cases.append(dict(name=name, g=g, sr="FloatTiny", alg=alg, rename="id", order=None, heap="real", pre_eos=(i % 2 == 0),
                               maxlen=bound(tier, g, maxlen)))
     # token-id / byte vocabularies: 0 is a token like any other (falsy, but not epsilon) - strengthened after seeded changes C03-2, C01-8
+    from vlib.dom_cfg import SPARSE_IDS as dom_cfg_ids
     for i, (name, g) in enumerate(doms[:40]):
-        ids = {a: k for k, a in enumerate(sorted(g.V))}
+        ids = {a: dom_cfg_ids[k] for k, a in enumerate(sorted(g.V))}
         gi = type(g)(g.S, frozenset(ids.values()), [(w, h, tuple(ids.get(y, y) for y in b)) for w, h, b in g.rules])
         for alg in ALGS:
             cases.append(dict(name=name + "#ids", g=gi, sr=SEMIRINGS[i % 2], alg=alg, rename="id", order=None, heap="real", pre_eos=False,
